@@ -13,7 +13,7 @@ Items travel as
 * `mp.marshal <value> <ty> ((h<cut> x<safe>)*)` → `ok <item>` | `err` | `panic` | `unmodelled`
   (the third argument is the oracle column: `ctystrings.SafeKnownPrefix` of every
   byte-cut prefix that occurs in the value, computed by the real function)
-* `mp.unmarshal <item> <ty>` → `ok <value>` …, sets printed without bucket ids, members sorted; the
+* `mp.unmarshal <item> <ty>` (the exported `Unmarshal`) → `ok <value>` …, sets printed without bucket ids, members sorted; the
   refinement builder's number equality is `textOracle` (= `rawNumberEqual`, what the code does)
 * `mp.unmarshalx` the same with `partialOracle` (exact; `unmodelled` where the answer could depend on
   the decimal text) — the instance the theorems of `Props/C16.lean` are stated for
@@ -146,11 +146,11 @@ def handleMsgpack : Handler := fun op args =>
   | "mp.unmarshal", [it, t] => do
     let it ← itemOfSexp it
     let t ← Ty.ofSexp t
-    pure (resTag canonV (@unmarshal Refine.textOracle (extOf []) it t))
+    pure (resTag canonV (@Unmarshal Refine.textOracle (extOf []) it t))
   | "mp.unmarshalx", [it, t] => do
     let it ← itemOfSexp it
     let t ← Ty.ofSexp t
-    pure (resTag canonV (@unmarshal Refine.partialOracle (extOf []) it t))
+    pure (resTag canonV (@Unmarshal Refine.partialOracle (extOf []) it t))
   | "mp.implied", [it] => do
     let it ← itemOfSexp it
     pure (resTag (fun t => toString t.toSexp) (impliedType (extOf []) it))
